@@ -384,7 +384,7 @@ func init() {
 		}
 		ev := &common.Evidence{PropertyID: prop, Tier: tier, Seed: common.Seed(), Level: "fault_enumeration", WallS: time.Since(t0).Seconds(), Violations: len(rep.Violations),
 			Coverage: map[string]any{"evaluations": total.Runs, "distinct_nontrivial": total.Crashed,
-				"rule": "for each scripted cluster schedule on the real file-backed storages: every mutating file-system call (mkdir, create, temp file, write, truncate, rename, remove) issued by every node after its boot is a crash point (kill before the call = kill after the previous one; one extra point after the last call; writes additionally with torn prefixes); the node is restarted over the same directory at once, nodes the script left down are restarted, then 150 fault-free heartbeat intervals follow; oracle: constructors and Start succeed, no fatal exit or panic, safety monitors (C01, C02, C06, C07, C08, C10) hold throughout, one leader, a fresh operation completes and every member reaches the leader's applied sequence; non-trivial = runs in which the planned call was reached and the node was killed there (each crash point is distinct by construction)",
+				"rule":    "for each scripted cluster schedule on the real file-backed storages: every mutating file-system call (mkdir, create, temp file, write, truncate, rename, remove) issued by every node after its boot is a crash point (kill before the call = kill after the previous one; one extra point after the last call; writes additionally with torn prefixes); the node is restarted over the same directory at once, nodes the script left down are restarted, then 150 fault-free heartbeat intervals follow; oracle: constructors and Start succeed, no fatal exit or panic, safety monitors (C01, C02, C06, C07, C08, C10) hold throughout, one leader, a fresh operation completes and every member reaches the leader's applied sequence; non-trivial = runs in which the planned call was reached and the node was killed there (each crash point is distinct by construction)",
 				"samples": samples, "scenarios": info, "crash_points": len(pts), "outcomes": total.Outcomes, "exhaustive": !total.Deadline},
 			Assumptions: []string{"process-crash fault model (completed calls durable, in-flight write leaves a prefix); one crash per run; the crashed node is restarted immediately", "fixed scripted schedules (8 scenarios) under canonical goroutine scheduling"}}
 		if err := ev.Write(); err != nil {
